@@ -235,7 +235,13 @@ def receive(st, cuts, part, flip=None):
         bad = None
         ends = []
         for ch in connlib.chunks(data, cuts):
-            conn.feed(ch)
+            try:
+                connlib.guarded_feed(conn, ch)
+            except connlib.Livelock as e:
+                ends.append(fed + len(ch))
+                bad = ('livelock', 'after %d of %d bytes had been handed over, the next read of %d bytes never returned: %s' % (
+                    fed, len(data), len(ch), e))
+                break
             fed += len(ch)
             ends.append(fed)
             failed = conn.is_defunct or conn.is_closed
